@@ -609,9 +609,16 @@ def _dispatch(model, rep):
     # normalize_facets(None) -> boundary_facets()
     mcls = model.cls("skfem.mesh.mesh", "Mesh")
     nf = mcls.methods["normalize_facets"]
-    obj = Obj(mcls, {"boundary_facets": PyFunc(lambda a, k, n: "BND")})
+    obj = Obj(mcls, {"boundary_facets": PyFunc(lambda a, k, n: "BND"),
+                     "nfacets": Poly.sym("nfacets"),
+                     "nelements": Poly.sym("nelements")})
+
+    def _nhook(interp, name, args, kwargs, node):
+        if name == "numpy.arange":
+            return ("arange",) + tuple(str(a) for a in args)
+        return _hook(interp, name, args, kwargs, node)
     try:
-        r = Interp(model, call_hook=_hook).call(nf, [None], {}, self_obj=obj)
+        r = Interp(model, call_hook=_nhook).call(nf, [None], {}, self_obj=obj)
     except (Unsupported, Raised) as e:
         raise AnalysisError(f"normalize_facets(None): {e}")
     _v(rep, R4, r == "BND", "normalize_facets[None]",
